@@ -820,6 +820,7 @@ type presArgs struct {
 func runPres(w *world, a presArgs) {
 	// shared, read-only part of the world: the server administrator and a root-scoped token
 	w.addSent(w.srv.AdminPass, "admin-password")
+	w.addSent(confOperatorPass, "config-user-password")
 	root := fmt.Sprintf("MRKptkroot%d", a.Index)
 	w.newAdminToken(root, "", true)
 	w.addMarker(root, "")
